@@ -4,10 +4,12 @@ demo fails with it and passes without it) and copies confirmed ones to /verif/se
 import subprocess, json, os, sys, shutil, glob
 def sh(c):
     r=subprocess.run(c,shell=True,capture_output=True,text=True); return r.returncode, r.stdout+r.stderr
-props=sys.argv[1:] or [os.path.basename(p)[3:] for p in sorted(glob.glob('/tmp/wt-C*'))]
+PFX=os.environ.get('WT_PREFIX','/tmp/wt-')
+MUTS=os.environ.get('MUTS','mutant_a,mutant_b').split(',')
+props=sys.argv[1:] or [os.path.basename(p)[len(os.path.basename(PFX)):] for p in sorted(glob.glob(PFX+'C*'))]
 for p in props:
-    wt=f'/tmp/wt-{p}'
-    for mu in ('mutant_a','mutant_b'):
+    wt=f'{PFX}{p}'
+    for mu in MUTS:
         d=f'{wt}/SEEDED/{mu}'
         if not os.path.exists(f'{d}/patch.diff'): print(p,mu,'MISSING'); continue
         env=f'cd {wt} && export CARGO_TARGET_DIR={wt}/target && '
